@@ -555,10 +555,11 @@ func (s *Session) executeQuery(qry *Query) (it *Iter) {
 }
 
 func (s *Session) removeHost(h *HostInfo) {
-	s.policy.RemoveHost(h)
 	hostID := h.HostID()
-	s.pool.removeHost(hostID)
+	// the ring first: startPoolFill looks there after adding a host to find out that it was removed meanwhile
 	s.ring.removeHost(hostID)
+	s.policy.RemoveHost(h)
+	s.pool.removeHost(hostID)
 }
 
 // KeyspaceMetadata returns the schema metadata for the keyspace specified. Returns an error if the keyspace does not exist.
